@@ -22,6 +22,7 @@ type CheckDef struct {
 	Batch        int
 	WatchdogS    int
 	Binary       string   // other worker binary (race build etc.)
+	Parts        []string // ids of sub-checks whose cases make up this check (each with its own binary/env)
 	Env          []string // extra env for workers
 	Run          func(ctx *WorkCtx, idx int)
 	Post         func(total *WorkerResult)
